@@ -61,6 +61,10 @@ func (c *cbConsumer) callback(b *common.Beacon, closed bool) {
 	}
 }
 
+// addStreamCallback (streamadd_v1.go / streamadd_v2.go, chosen by the build tag cbremover that vlib/core.py sets when the
+// tree's AddStreamCallback returns a remover) registers a consumer the way a stream handler does: AddStreamCallback where the
+// tree's callbackStore has it (Put never waits for such a consumer, it ends it when its queue is full), AddCallback otherwise.
+
 type cbSUT struct {
 	top   beacon.CallbackStore
 	ctx   context.Context
@@ -119,6 +123,21 @@ func (s *cbSUT) settled() bool {
 	return false
 }
 
+// noteEnded: a consumer whose job channel is no longer the one registered under its id has been ended by the store (its
+// queue was full) — wait hint only: no further job is expected for it beyond the close notice, which takes the place of
+// the beacon it did not get.
+func (s *cbSUT) noteEnded() {
+	for k, c := range s.cons {
+		if !c.active || strings.HasPrefix(k, "pending:") || strings.HasPrefix(k, "old") {
+			continue
+		}
+		cur := beacon.VerifJobChanOf(s.top, c.id)
+		if mine := c.jobs.Load(); mine != nil && (cur == nil || !cur.Same(mine)) {
+			c.active = false
+		}
+	}
+}
+
 func (s *cbSUT) free() {
 	// let every blocked goroutine go
 	for _, c := range s.cons {
@@ -130,7 +149,7 @@ func (s *cbSUT) free() {
 
 // cbstore
 //
-//	init | add <id> <fast|gate> | remove <id> | put | release <id> <n> | wait | got <id> | last | qlen <id>
+//	init | add <id> <fast|gate> (a callback of the node itself) | adds <id> <fast|gate> (a stream handler's) | remove <id> | put | release <id> <n> | wait | got <id> | last | qlen <id>
 func cbstoreEngine(_ []string, in *bufio.Scanner, out *bufio.Writer) {
 	var s *cbSUT
 	for in.Scan() {
@@ -150,7 +169,7 @@ func cbstoreEngine(_ []string, in *bufio.Scanner, out *bufio.Writer) {
 				return "bad-state"
 			}
 			switch f[0] {
-			case "add":
+			case "add", "adds":
 				if s.wCh != nil {
 					return "bad-state"
 				}
@@ -161,7 +180,11 @@ func cbstoreEngine(_ []string, in *bufio.Scanner, out *bufio.Writer) {
 				done := make(chan bool, 1)
 				old := s.cons[f[1]]
 				go func() {
-					s.top.AddCallback(f[1], c.callback)
+					if f[0] == "adds" {
+						_ = addStreamCallback(s.top, f[1], c.callback)
+					} else {
+						s.top.AddCallback(f[1], c.callback)
+					}
 					c.jobs.Store(beacon.VerifJobChanOf(s.top, f[1]))
 					done <- true
 				}()
@@ -233,6 +256,7 @@ func cbstoreEngine(_ []string, in *bufio.Scanner, out *bufio.Writer) {
 						return "err:" + strings.ReplaceAll(err.Error(), " ", "_")
 					}
 					s.head = r
+					s.noteEnded()
 					s.settled()
 					return fmt.Sprintf("ok %d", r)
 				case <-time.After(watchdog()):
@@ -263,6 +287,7 @@ func cbstoreEngine(_ []string, in *bufio.Scanner, out *bufio.Writer) {
 						if err != nil {
 							return "err:" + strings.ReplaceAll(err.Error(), " ", "_")
 						}
+						s.noteEnded()
 					case <-deadline:
 						return "still-blocked"
 					}
